@@ -319,14 +319,14 @@ class OsLogEvent:
                 parsed_arg['privacy'] = segment['a']['p']
             if 'c' in segment['a']:
                 parsed_arg['category'] = segment['a']['c']
-            if parsed_arg['category'] == 1:
+            if parsed_arg.get('category') == 1:
                 if 'sc' in segment['a']:
                     parsed_arg['scalar_category'] = segment['a']['sc']
                 if 'st' in segment['a']:
                     parsed_arg['scalar_type'] = segment['a']['st']
             if 'availability' not in parsed_arg or parsed_arg['availability'] == 3:
                 if 'or' in segment['a']:
-                    if parsed_arg['category'] == 2:
+                    if parsed_arg.get('category') == 2:
                         parsed_arg['object_representation'] = log_strings[segment['a']['or']]
                     else:
                         parsed_arg['object_representation'] = segment['a']['or']
